@@ -66,6 +66,11 @@ class Registry(dict):
         alts = self.alts.get(key)
         if not alts:
             return default
+        cp = getattr(self, "carrier_prop", None)  # the module that owns the carrier being verified right now
+        if cp is not None:
+            for c in alts:
+                if c.prop == cp:
+                    return c
         for c in alts:
             if c.prop == self.current:
                 return c
